@@ -39,6 +39,7 @@ AUTOMUT_TRIAGE = [
 
 def run(chk):
     repo = chk.repo
+    cm.schema(chk, repo, "C14")
     d1_setter(chk, repo)
     d3_transformations(chk, repo)
     d4_is_aligned(chk, repo)
